@@ -485,6 +485,9 @@ def run(ctx) -> None:
     from .c14 import r3_std_constants
     with ctx.as_rule(C14_R3="C10.R5"):
         r3_std_constants(ctx, nf)
+    ctx.rule("C10.R6", "types and values inside definitions decode to what was encoded: forward CODEC of hugr.tys / hugr.val (shared with C02.R1)", floor=20)
+    from .c02 import r1_forward_codec
+    r1_forward_codec(ctx, nf, rule="C10.R6", modules=("hugr.tys", "hugr.val"))
     from .. import lints
     lints.arm(ctx)
 
